@@ -42,6 +42,7 @@ type gate struct {
 	done     chan gateResult
 	seq      int
 	fromInc  int // incarnation of the calling node/coordinator when the call was made
+	checked  bool // coordinator request: looked at by checkCoordinatorRequests
 }
 
 func (g *gate) key() string { return fmt.Sprintf("%s:%d>%d@%d", g.kind, g.from, g.to, g.term) }
